@@ -72,7 +72,14 @@ def mk_desc(d):
     raise ValueError(k)
 
 
-def mk_char(c):
+SHARED = {}      # per case: characteristic TEMPLATE objects declared in several services
+
+
+def mk_char(c, share=True):
+    if share and c.get("shared") is not None:
+        if c["shared"] not in SHARED:
+            SHARED[c["shared"]] = mk_char(c, share=False)
+        return SHARED[c["shared"]]
     kw = dict(uuid=mk_uuid(c["uuid"]), value=bytes.fromhex(c["value"]), properties=c["properties"],
               notify=c["notify"], indicate=c["indicate"])
     if c["permissions"] is not None:
@@ -264,6 +271,7 @@ def parse_export(j):
 
 def run_case(case):
     res = {"steps": []}
+    SHARED.clear()
     try:
         ns = {}
         for s in case["services"]:
@@ -274,6 +282,22 @@ def run_case(case):
         res.update(exc=type(e).__name__, stage="build", msg=str(e)[:200])
         return res
     res["steps"].append(light(p))
+    # further instances of the SAME class (other / same start handle): each must get its own
+    # objects and leave the first instance untouched
+    if case.get("again"):
+        try:
+            before = (light(p), full(p), p.export_json())
+            ids1 = {id(a) for a in p.db.values()}
+            res["again"] = []
+            for st in case["again"]:
+                p2 = cls(start_handle=st)
+                after = (light(p), full(p), p.export_json())
+                res["again"].append({"start": st, "light": light(p2),
+                                     "disjoint": not (ids1 & {id(a) for a in p2.db.values()}),
+                                     "first_same": after == before, "first_light": after[0]})
+        except Exception as e:  # noqa
+            res.update(exc=type(e).__name__, stage="second-instance", msg=str(e)[:200])
+            return res
     for k, op in enumerate(case["ops"]):
         try:
             svcs = listed_services(p)
@@ -286,7 +310,7 @@ def run_case(case):
                 res.setdefault("rets", {})[str(k)] = p.update_service(svcs[op["i"]])
             elif o == "addchar":
                 s = svcs[op["i"]]
-                s.add_characteristic(mk_char(op["char"]))
+                s.add_characteristic(mk_char(op["char"], share=False))
                 res.setdefault("rets", {})[str(k)] = p.update_service(s)
             elif o == "delchar":
                 s = svcs[op["i"]]
